@@ -1728,13 +1728,13 @@ def _committed_replays():
 def main(run):
     helpers.ensure()
     nw = max(1, min(16, int(os.environ.get("C09_WORKERS") or os.environ.get("VERIF_PROCS") or 16)))
-    per = int(os.environ.get("C09_PER") or run.n(60, 500))      # C09_PER: development override only
+    per = int(os.environ.get("C09_PER") or run.n(60, 250))      # C09_PER: development override only
     replays = _committed_replays()
     tasks = [("replay", (c, run.scratch)) for c in replays]
     # job-control histories on ptys: mostly waiting (polling), started first so that they overlap with the CPU-bound families
     nj = 8
     tasks += [("jobctl", ("grid", i, nj, run.scratch, run.tier)) for i in range(nj)]
-    tasks += [("jobctl", ("random", common.worker_seed(run.seed, 200000 + w), run.n(10, 50), run.scratch, run.tier)) for w in range(nj)]
+    tasks += [("jobctl", ("random", common.worker_seed(run.seed, 200000 + w), run.n(10, 30), run.scratch, run.tier)) for w in range(nj)]
     tasks += [("grid", (i, 16, run.scratch, run.tier)) for i in range(16)]
     chunk = 60 if run.tier == "quick" else 200
     nrandom = max(1, (per * 16) // chunk)
